@@ -62,7 +62,9 @@ def _idn_pool():
                 if idna_canonical_label(lbl) and lbl not in pool:
                     pool.append(lbl)
     pool += [l for l in ["bücher", "münchen", "faß".replace("ß", "ss"), "παράδειγμα", "пример", "испытание", "例え",
-                         "测试", "테스트", "مثال", "דוגמה", "ñandú", "łódź", "ü", "é" * 20, "ö" * 40]
+                         "测试", "테스트", "مثال", "דוגמה", "ñandú", "łódź", "ü", "é" * 20, "ö" * 40,
+                         # A-labels of exactly 63 / 62 octets
+                         "ö" * 57, "я" * 57, "あ" * 57, "ö" * 56, "я" * 56]
              if idna_canonical_label(l) and l not in pool]
     return pool
 
@@ -179,7 +181,16 @@ def _text(s: Src, alphabet, lo, hi):
 
 def gen_label(s: Src, odd=True) -> str:
     for _ in range(4):
-        k = s.below(12)
+        k = s.below(14)
+        if k >= 12:
+            # boundary lengths: 63 octets is the legal maximum (RFC 1035 2.3.4); 62/61 just below it
+            n = (63, 63, 63, 62, 62, 61, 32, 1)[s.below(8)]
+            if k == 12:
+                return "abcxyzABZ019_-"[s.below(13)] * n
+            l = _text(s, _LDH_MIXED, n, n)
+            if _no_ace(l):
+                return l
+            continue
         if k < 4:
             return _COMMON[s.below(len(_COMMON))]
         if k < 6:
@@ -210,9 +221,11 @@ def gen_pool(s: Src, odd=True):
         pre = [gen_label(s, odd) for _ in range(1 + s.below(2))]
         out.append(fit_name(pre + out[s.below(len(out))]))
     k = s.below(40)
-    if k == 0:
-        out.append(["abcXYZ019_"[s.below(10)] * 61, "mno"[s.below(3)] * 63, "p" * 63, "q" * 63])
-    elif k < 4:
+    if k < 3:
+        # exactly 255 octets on the wire (k == 0, 1) or 254 (k == 2), with a shorter sibling sharing its 63-octet suffixes
+        out.append(["abcXYZ019_"[s.below(10)] * (61 if k < 2 else 60), "mno"[s.below(3)] * 63, "p" * 63, "q" * 63])
+        out.append(out[-1][1 + s.below(3):])
+    elif k < 6:
         out.append([])  # root
     return out
 
